@@ -92,6 +92,8 @@ def spec_element_bits(z):
 
 def _set_bits(s, base, universe=None, empty_all=None):
     """OR of 1 << (k + base) for k in symbolic set s; empty set => empty_all (mask: everything of the field)"""
+    if isinstance(s, tuple) and not s:
+        return _c(empty_all)
     w = _c(0)
     for k in s.u:
         w = w | z3.If(s.m[k], _c(1 << (k + base)), _c(0))
@@ -147,7 +149,7 @@ def spec_query_words(kind, q, bond=None):
                 w2 = w2 | z3.If(s.m[z], _c(e2), _c(0))
         else:
             w1, w2 = spec_element_bits(bv(q.atomic_number))
-        rad = z3.If(q._is_radical.z, _c(1 << 45), _c(1 << 44))
+        rad = z3.If(zbool(q._is_radical), _c(1 << 45), _c(1 << 44))
         if kind == 'Q' and q._isotope is not None:
             w3 = z3.If(q._isotope.z == 0, _c(FIELD_ANY['iso']), _bit(q._isotope.z - bv(q.mdl_isotope) + 54)) | rad
         else:
@@ -244,7 +246,7 @@ def _o3_case(aiso, ah):
         return _words_from(ns)
     return Case(f'O3:_cython_compiled_structure/atom-words==layout[iso={aiso},h={ah}]', fn, dom,
                 lambda ws: z3.And(_fits(ws), *[bv(w) == s for w, s in zip(ws, spec)]), (), None,
-                (IFILE, 'MoleculeIsomorphism._cython_compiled_structure/for[0]'))
+                (IFILE, 'MoleculeIsomorphism._cython_compiled_structure/for[0]'), tactic='QF_BV')
 
 
 def _mk_qbond(prefix, ring):
@@ -266,15 +268,15 @@ def _mk_bond(dom, prefix='b'):
     return b
 
 
-def _o2_case(kind, qiso, ring_mode, bond_ring='nobond'):
-    """O2: query words built by the real region == layout spec"""
+def _o2_case(kind, qiso, ring_mode, bond_ring='nobond', empties=None, rad=None):
+    """O2: query words built by the real region == layout spec (shape: which set attributes are empty, radical flag)"""
     S = _iso_src()
     dom = []
-    q = Q.mk_query(kind, dom, iso=qiso, ring_mode=ring_mode, ring_u=RING_U9)
+    q = Q.mk_query(kind, dom, iso=qiso, ring_mode=ring_mode, ring_u=RING_U9, empties=empties, rad=rad)
     if kind == 'Q' and q._isotope is not None:
         d = q._isotope.z - bv(q.mdl_isotope)
         dom.append(z3.Or(q._isotope.z == 0, z3.And(d >= -8, d <= 8)))
-    if kind != 'M':
+    if kind != 'M' and isinstance(q._implicit_hydrogens, SymSmallSet):
         dom += [z3.Not(q._implicit_hydrogens.m[k]) for k in range(5, 15)]        # documented domain: hydrogens 0..4
     b = None if bond_ring == 'nobond' else _mk_qbond('qb', bond_ring)
     if b is not None:
@@ -284,9 +286,13 @@ def _o2_case(kind, qiso, ring_mode, bond_ring='nobond'):
     def fn():
         ns = regions.run_region(S['q_atom'], vars(S['mod']), a=q, b=b, masks1=[], masks2=[], masks3=[], masks4=[])
         return _words_from(ns)
-    return Case(f'O2:_cython_compiled_query/{kind}-words==layout[iso={qiso},ring={ring_mode},bond={bond_ring}]', fn, dom,
+    shape = '' if empties is None else f',empty={"".join(sorted(empties)) or "-"},rad={rad}'
+    # quick tier: the two extreme emptiness shapes for every (kind, isotope, ring, bond) combination and the single-attribute shapes for
+    # the plain element query; thorough tier: the full 16-shape grid
+    quick = empties is None or len(empties) in (0, 4) or (len(empties) == 3 and kind == 'Q' and qiso is None and ring_mode == 'none' and bond_ring == 'nobond')
+    return Case(f'O2:_cython_compiled_query/{kind}-words==layout[iso={qiso},ring={ring_mode},bond={bond_ring}{shape}]', fn, dom,
                 lambda ws: z3.And(_fits(ws), *[bv(w) == s for w, s in zip(ws, spec)]), (), None,
-                (IFILE, 'QueryIsomorphism._cython_compiled_query/for[0]/for[0]'))
+                (IFILE, 'QueryIsomorphism._cython_compiled_query/for[0]/for[0]'), tactic='QF_BV', tier='quick' if quick else 'thorough')
 
 
 def _o3b_case():
@@ -339,7 +345,7 @@ def _o4_case(kind, qiso, aiso, ah, ring_mode, probe=None):
 
     def native(model):
         return replay_pair(kind, model, qiso, aiso, None if probe == 'h-unknown' else ah, ring_mode)
-    return Case(name, _const(True), dom, lambda _: goal, (), native, (IFILE, 'layout'), timeout_ms=120000)
+    return Case(name, _const(True), dom, lambda _: goal, (), native, (IFILE, 'layout'), timeout_ms=120000, tactic='QF_BV')
 
 
 def replay_pair(kind, model, qiso, aiso, ah, ring_mode):
@@ -474,14 +480,19 @@ def cases():
     for aiso in ('sym', None):
         for ah in ('sym', None):
             cs.append(_o3_case(aiso, ah))
+    import itertools
+    shapes = [frozenset(k for k, e in zip('hnxy', bits) if e) for bits in itertools.product((0, 1), repeat=4)]
     for kind in 'QAL':
-        for qiso in (('sym', None) if kind == 'Q' else (None,)):
-            for ring_mode in ('set', 'zero', 'none'):
-                cs.append(_o2_case(kind, qiso, ring_mode))
-        for bond_ring in (None, True, False):
-            cs.append(_o2_case(kind, None, 'none', bond_ring))
-    cs.append(_o2_case('M', None, 'none'))
-    cs.append(_o2_case('M', None, 'none', None))
+        for rad in (False, True):
+            for empties in shapes:
+                for qiso in (('sym', None) if kind == 'Q' else (None,)):
+                    for ring_mode in ('set', 'zero', 'none'):
+                        cs.append(_o2_case(kind, qiso, ring_mode, empties=empties, rad=rad))
+                for bond_ring in (None, True, False):
+                    cs.append(_o2_case(kind, None, 'none', bond_ring, empties=empties, rad=rad))
+    for empties in (frozenset(), frozenset('n'), frozenset('y'), frozenset('ny')):
+        cs.append(_o2_case('M', None, 'none', empties=empties))
+        cs.append(_o2_case('M', None, 'none', None, empties=empties))
     cs.append(_o3b_case())
     for ring in (None, True, False):
         cs.append(_o2b_case(ring))
